@@ -7,7 +7,7 @@ import sys
 HERE = os.path.dirname(os.path.dirname(os.path.abspath(__file__)))
 
 CHECKS = {
-    "C01": ("valid_matching invariant over Aligner.align candidates (ladders of seed peaks), every record of every file of every mode and every dispatched candidate; CLI sample equal to in-process",
+    "C01": ("valid_matching invariant over Aligner.align candidates (ladders of seed peaks, junction and centre-triple cases), one Aligner reused over a molecule and its fragments, rows out of the unit-level first/second-pass join, every record of every file of every mode and every dispatched candidate; CLI sample equal to in-process",
             "property-based testing (Hypothesis): invariant recomputed from file text and harness maps; CLI differential"),
     "C02": ("every record of every file of generated end-to-end runs (4 modes, both strands, second-pass records, offset queries) compared field by field with values recomputed from the CMAP text the harness wrote",
             "property-based testing (Hypothesis): invariant recomputed from raw inputs via independent parser"),
@@ -19,31 +19,31 @@ CHECKS = {
             "property-based testing (Hypothesis): metamorphic relation with known placement"),
     "C07": ("degenerate-heavy inputs x 4 modes x the help-allowed parameter space run in-process and through the CLI; crashes bucketed by innermost repository frame, files parsed independently and read back with the project's XmapReader, unalignable queries removed and outputs compared",
             "property-based testing / fuzzing (Hypothesis): crash + format oracle, round-trip through project reader, metamorphic removal"),
-    "C09": ("real CLI with real process pool: -c 1 unperturbed run vs -c in 1..16 with harness-owned completion orders (per-query delays injected by a launcher in the child) and a repetition; byte comparison of all files",
+    "C09": ("real CLI with real process pool: -c 1 unperturbed run vs -c in 1..16 with harness-owned completion orders (per-query delays injected by a launcher in the child) and a drawn PYTHONHASHSEED per run; inputs carry molecules whose two second-pass fragments score exactly alike; byte comparison of all files",
             "property-based testing (Hypothesis) with schedule perturbation: differential between schedules"),
     "C10": ("base run vs runs on transformed inputs: query subsets, added queries, permuted molecules, shuffled rows, -qId/-rId vs physically restricted files; records compared per query",
             "property-based testing (Hypothesis): differential / metamorphic (restriction, permutation)"),
     "C03": ("exhaustive enumeration of every valid matching on an 8x8 (quick) / 10x10 (thorough) grid in both orientations, random matchings up to 300 pairs, and every record of generated end-to-end runs; HitEnum replayed from the first pair",
             "exhaustive small-domain enumeration + Hypothesis, round-trip (replay) oracle"),
-    "C08": ("the same generated input run in all four output modes; files compared between modes, joined records checked against their parts from file text, maxDifference boundary probed adaptively",
+    "C08": ("the same generated input run in all four output modes; files compared between modes, joined records checked against their parts from file text, maxDifference boundary probed adaptively; AlignmentResults.resolve driven directly on a first-pass row and the second-pass row of its own fragment (joined => justified, subset of / equal to the valid union, parts not mutated)",
             "property-based testing (Hypothesis): differential between output modes + structural relation joined/parts"),
     "C11": ("lattice inputs commensurate with both correlation resolutions run as given and with every query mirrored ('separate' mode); records compared under the mirror map when seeds correspond and the best candidate is unique; chainer/join score compared between ascending and descending query label numbers",
             "property-based testing (Hypothesis): metamorphic relation (mirror image)"),
     "C15": ("segment lists produced from real label data by ladders of 2-8 seed peaks resolved as a list and pairwise; identity-level comparison of input and output positions, shared-label / crossing / removed-only-in-overlap clauses",
             "property-based testing (Hypothesis): invariant over input/output of the resolver"),
-    "C17": ("generated CMAP text (shuffled rows, permuted/extra columns, label-less molecules, id filters) read with readQueries/readReferences and compared with the harness model; trim laws on every map",
+    "C17": ("generated CMAP text (shuffled rows, permuted/extra columns, label-less molecules, id filters) read with readQueries/readReferences and compared with the harness model; trim laws on every map; the reference and query maps a Program built from the command line holds (two files or one file in both roles, -rId/-qId)",
             "property-based testing (Hypothesis): reference model of the file text"),
     "C18": ("every file of generated end-to-end runs and unit-level writer output read back with the project's reader and compared with the independently parsed text and the harness maps",
             "property-based testing (Hypothesis): round-trip writer -> reader"),
-    "C19": ("generated pairs of alignment sets with colliding keys, duplicated query labels and derived second sets; key partition, bounds, reflexivity and swap symmetry of AlignmentComparer.compare",
+    "C19": ("generated pairs of alignment sets with colliding keys, duplicated query labels and derived second sets; key partition, bounds, reflexivity and swap symmetry of AlignmentComparer.compare; the compare_alignments program on generated simulation-data and XMAP files (a file against itself, two files in both orders)",
             "property-based testing (Hypothesis): algebraic laws"),
     "C20": ("generated sorted call lists around the blur distance within and across chromosomes through cluster_indels and write_indel_file (parsed back); generated maps/alignments/breakpoints through both indel finders with Length/type recomputed from harness maps",
             "property-based testing (Hypothesis): conservation laws + recomputation"),
-    "C12": ("exhaustive small label lattices (all multisets, seed offsets, strands, shifts) and Hypothesis cases with planted boundary labels against an independent model of window, partition, order, offsets and mutual-nearest pairing",
+    "C12": ("exhaustive small label lattices (all multisets, seed offsets, strands, shifts), Hypothesis cases with planted boundary labels and sequences of calls on one engine (molecule, its fragments, other strand, other maps with the same ids) against an independent model of window, partition, order, offsets and mutual-nearest pairing; atheris campaign in the thorough tier",
             "exhaustive small-domain enumeration + Hypothesis, reference model"),
     "C13": ("exhaustive enumeration of all score sequences up to length 6 (quick) / 8 (thorough) over {-3..3} x 20 threshold pairs plus Hypothesis-generated long realistic sequences, each compared with a reference scan written from the statement and with the statement's validity clauses",
             "exhaustive small-domain enumeration + Hypothesis, reference-model differential"),
-    "C14": ("Hypothesis-generated segment sets (<=8 quick / <=12 thorough) with brute-force enumeration of every admissible sequence, larger sets against an independent DP; overlap and join-score sign rules recomputed from coordinates",
+    "C14": ("exhaustive enumeration of every pair of short segments with every overlap on 1 bp and 0.5 bp grids, Hypothesis-generated segment sets (<=8 quick / <=12 thorough, 10/3/1/0.5 bp grids) with brute-force enumeration of every admissible sequence, one chainer reused over several sets, larger sets against an independent DP; the minus-infinity rule asserted in both directions against the half-overlap rule recomputed from coordinates",
             "property-based testing (Hypothesis) with brute-force optimum oracle"),
     "C16": ("exhaustive label/resolution/start/end grid and all bit vectors up to length 10 for blur, plus Hypothesis cases, against a reference model; peak selection against top-N multisets",
             "exhaustive small-domain enumeration + Hypothesis, reference model"),
@@ -88,7 +88,7 @@ def main():
         "engines": [{"name": "vcheck", "path": "vcheck", "serves_properties": [c["property_id"] for c in checks],
                      "kind_free_text": "Hypothesis 6.168 property-based testing, exhaustive small-domain enumeration and atheris 3.1 (libFuzzer) coverage-guided campaigns over the same generators; 16 process shards, explicit oracles per property (vlib/, checks/)"}],
         "checks": checks,
-        "notes": "Genuine defects found and repaired are listed in known_findings.json (status fixed, with the fix commit) and DESIGN.md section 4; regress/ holds their minimal reproductions, replayed first by every run.",
+        "notes": "Genuine defects found and repaired are listed in known_findings.json (status fixed, with the fix commit) and DESIGN.md section 4; regress/ holds their minimal reproductions, replayed first by every run.  One open finding (F13, property C08: the join drops a pair that interleaves with the other part) is reported as a KNOWN-FINDING line by ./vcheck C08, which exits 0 unless a violation with another signature appears.",
         "not_applicable": na,
     }
     with open(os.path.join(HERE, "MANIFEST.json"), "w") as f:
